@@ -23,6 +23,13 @@ def run(ctx):
     # every goroutine of a compact build allocates its own large encode buffers: keep the counts moderate
     for cores in ([1, 2, 5] if ctx.quick else [1, 2, 3, 5, 8]):
         variants.append({"impl": "compact", "cores": cores, "max": (10, 60)})
+    # the statement itself, differentially: the same source built with 1 and with N goroutines answers every query
+    # identically (incl. reference queries and traversal, which have no specification counterpart for compact worlds)
+    allsec = ["lookup", "search", "each", "refs", "areas", "rels", "traverse", "problems"]
+    for cores in ([3, 5] if ctx.quick else [2, 3, 5, 6, 7]):
+        variants.append({"impl": "pardiff-compact", "cores": cores, "max": (8, 60), "sections": allsec})
+    for cores in ([3, 16] if ctx.quick else [2, 3, 7, 16]):
+        variants.append({"impl": "pardiff-basic", "cores": cores, "sections": allsec})
     sections = ["lookup", "search", "each", "problems", "build", "observe", "validity"]
     return sworld.run_static(
         ctx, "C36", 1, variants=variants, sections=sections,
